@@ -207,6 +207,8 @@ pub enum Stmt {
     MutCall(String, usize, usize, Vec<Expr>),
     Exit(Expr),
     Fatal(String),
+    /// verbatim text (fault injection for C05; never interpreted)
+    Raw(String),
 }
 
 #[derive(Clone, Debug, Default)]
@@ -276,6 +278,8 @@ pub struct Program {
     pub main_returns_i32: bool,
     /// feature tags recorded by the generator
     pub features: std::collections::BTreeSet<&'static str>,
+    /// verbatim top-level items (fault injection for C05)
+    pub raw_items: Vec<String>,
 }
 
 // ---------------------------------------------------------------------------
@@ -613,6 +617,7 @@ impl<'a> Printer<'a> {
             }
             Stmt::Exit(e) => format!("std::exit({});", self.expr(e)),
             Stmt::Fatal(m) => format!("std::fatal_error(\"{m}\");"),
+            Stmt::Raw(t) => t.clone(),
         }
     }
     fn fn_def(&mut self, f: &FnDef, with_body: bool) -> String {
@@ -705,6 +710,9 @@ impl<'a> Printer<'a> {
         for g in &p.globals {
             let e = self.expr(&g.init);
             item(format!("let {}{}: {} = {};", if g.mutable { "mut " } else { "" }, g.name, self.ty(&g.ty), e));
+        }
+        for r in &p.raw_items {
+            item(r.clone());
         }
         item("fn tr(k: Int64): Int64 { println(\"t${k}\"); k }".to_string());
         for f in &p.fns {
